@@ -162,7 +162,26 @@ func (e *termEnv) int(t Term) (int64, bool) {
 		}
 	case TConv:
 		if b, ok := x.To.Underlying().(*types.Basic); ok && b.Info()&types.IsInteger != 0 {
-			return e.int(x.X)
+			v, ok := e.int(x.X)
+			if !ok {
+				return 0, false
+			}
+			// narrowing conversions wrap; uint/uint64 keep the bit pattern (compared as unsigned in bool)
+			switch b.Kind() {
+			case types.Int8:
+				v = int64(int8(v))
+			case types.Int16:
+				v = int64(int16(v))
+			case types.Int32:
+				v = int64(int32(v))
+			case types.Uint8:
+				v = int64(uint8(v))
+			case types.Uint16:
+				v = int64(uint16(v))
+			case types.Uint32:
+				v = int64(uint32(v))
+			}
+			return v, true
 		}
 	case TBuiltin:
 		// the value of copy(dst, src) is min(len(dst), len(src)); min/max of integers
@@ -276,6 +295,24 @@ func (e *termEnv) bool(t Term) (bool, bool) {
 		case token.EQL, token.NEQ, token.LSS, token.LEQ, token.GTR, token.GEQ:
 			a, ok1 := e.int(x.X)
 			b, ok2 := e.int(x.Y)
+			if ok1 && ok2 && (unsignedWord(x.X) || unsignedWord(x.Y)) {
+				// uint(i) < uint(n): the operands compare as unsigned words (a negative i is a huge number)
+				ua, ub := uint64(a), uint64(b)
+				switch x.Op {
+				case token.EQL:
+					return ua == ub, true
+				case token.NEQ:
+					return ua != ub, true
+				case token.LSS:
+					return ua < ub, true
+				case token.LEQ:
+					return ua <= ub, true
+				case token.GTR:
+					return ua > ub, true
+				case token.GEQ:
+					return ua >= ub, true
+				}
+			}
 			if ok1 && ok2 {
 				switch x.Op {
 				case token.EQL:
@@ -749,4 +786,14 @@ func (e *numEnv) kindIs(x Term, T types.Type) (bool, bool) {
 		return !v.IsInt, true
 	}
 	return false, true
+}
+
+// unsignedWord: a conversion to uint, uint64 or uintptr (the value keeps its bit pattern; comparisons are unsigned).
+func unsignedWord(t Term) bool {
+	cv, ok := t.(TConv)
+	if !ok {
+		return false
+	}
+	b, ok := cv.To.Underlying().(*types.Basic)
+	return ok && (b.Kind() == types.Uint || b.Kind() == types.Uint64 || b.Kind() == types.Uintptr)
 }
